@@ -16,7 +16,9 @@ CFG = dict(
     rule="inputs: (esc) strings over an alphabet of DOT/callgrind/HTML metacharacters; (dot) graphs handed to ComposeDot -- synthetic ones "
          "(names, tags, attributes, extreme weights) and those report.GetDOT builds from generated profiles under call_tree / drop_negative / "
          "trimming / functions|lines|files|addresses|filefunctions, incl. diff-like profiles whose nodes net to zero; (cg) the graph "
-         "printCallgrind walks for generated profiles; (html) 4 pages x 2 queries of the web UI for profiles whose every string carries payload "
+         "printCallgrind walks for generated profiles, plus profiles whose locations come from a pool of special addresses (0 / no mapping "
+         "mixed with non-zero, neighbours, length boundaries of the decimal and hex forms, 2^63, 2^64-1), coarse explicit units (zero costs) and "
+         "-tagroot/-tagleaf pseudo frames; every stream also with LONG strings (90..400 bytes, dense in quotes and backslashes) in every position; (html) 4 pages x 2 queries of the web UI for profiles whose every string carries payload "
          "markers. distinct = sha256 of the input term; non-trivial = string holds a quote/backslash/newline (esc), graph has a node (dot), "
          ">= 2 nodes and an edge (cg), page is HTML and contains profile text (html)",
     spec_what="DOT text is not a valid Graphviz document / an edge names an undeclared node / callgrind name or position does not decode / profile text unescaped in HTML",
